@@ -78,6 +78,46 @@ for _s in SHAPES_C01:
         totals_unit(_s, _p)
 
 
+def outside_assignment_unit(shape):
+    @unit(f"C02.totals_after_assignment_outside_a_model.{shape}", "C02", [f"{M}::GraphBuilder.build_model", f"{M}::Model.__init__", f"{M}::Model.pop_nodes_and_vars", f"{N}::Value.value.fset",
+                                                                          f"{N}::Node.set_inputs", f"{M}::Model.log_prob.fget", f"{M}::Model.log_lik.fget", f"{M}::Model.log_prior.fget"],
+          assumptions=[f"graph shape fixed to '{shape}' (values, density and calculation functions arbitrary)", "A-REAL", "A-NX"])
+    def u(ip, shape=shape):
+        """values assigned while the graph is NOT in a model (before the first build; after pop_nodes_and_vars()): the model built afterwards
+        reports the totals at the values the variables hold at build time."""
+        c = ip.ctx
+        install_graph_models(ip)
+        g = G(ip)
+        roots = SHAPES_C01[shape](g)
+        gb = ip.call(g.GB, [], {})
+        ip.call(method(ip, gb, "add"), list(roots), {})
+        _, vars_ = ip.call(method(ip, gb, "_all_nodes_and_vars"), [], {})
+        by = {ip.getattr(v, "name"): v for v in vars_}
+        for nm in STRONG[shape]:
+            ip.setattr(by[nm], "value", z3.Const(f"pre_{nm}", U))
+        model = ip.call(method(ip, gb, "build_model"), [], {})
+        for phase, prefix in (("assigned_before_build", "pre"), ("assigned_after_pop", "popped")):
+            if phase == "assigned_after_pop":
+                _n, vs = ip.call(method(ip, model, "pop_nodes_and_vars"), [], {})
+                for nm in STRONG[shape]:
+                    ip.setattr(vs[nm], "value", z3.Const(f"popped_{nm}", U))
+                gb2 = ip.call(g.GB, [], {})
+                ip.call(method(ip, gb2, "add"), [v for k, v in vs.items()], {})
+                model = ip.call(method(ip, gb2, "build_model"), [], {})
+            vals = {nm: z3.Const(f"{prefix}_{nm}", U) for nm in STRONG[shape]}
+            exp = expected(ip, shape, vals)
+            prob, lik, prior = [to_sort(ip.getattr(model, a), Real) for a in ("log_prob", "log_lik", "log_prior")]
+            c.oblige(f"{phase}.log_prob_is_joint_density", prob == sum(t for _, t in exp.values()))
+            c.oblige(f"{phase}.log_lik_is_observed_part", lik == sum((t for fl, t in exp.values() if fl == "observed"), z3.RealVal(0)))
+            c.oblige(f"{phase}.log_prior_is_parameter_part", prior == sum((t for fl, t in exp.values() if fl == "parameter"), z3.RealVal(0)))
+    return u
+
+
+for _s in ("hier", "flat", "weakdist_deep"):
+    if _s in SHAPES_C01:
+        outside_assignment_unit(_s)
+
+
 @unit("C02.user_nodes", "C02", [f"{M}::GraphBuilder._add_model_log_lik_node", f"{M}::GraphBuilder._add_model_log_prior_node", f"{M}::GraphBuilder._add_model_log_prob_node",
                                 f"{M}::GraphBuilder.log_lik_node.fset", f"{N}::TransientIdentity.__init__", f"{N}::TransientCalc.value.fget"])
 def u_user_nodes(ip):
@@ -275,3 +315,9 @@ def u_helpers(ip):
     model = g.build(y)
     c.oblige("model_with_helpers.log_lik", to_sort(ip.getattr(model, "log_lik"), Real) == TOTAL(ip.uf("logp_Lik", z3.Const("val_mu", U), z3.Const("val_y", U))))
     c.oblige("model_with_helpers.log_prior", to_sort(ip.getattr(model, "log_prior"), Real) == TOTAL(ip.uf("logp_Pmu", z3.Const("val_mu", U))))
+
+
+# the caching protocol this property's statement rests on (values and densities "after updating")
+from contracts.c01 import register_cache_core  # noqa: E402
+
+register_cache_core("C02")
